@@ -247,7 +247,11 @@ func genListener(r *hx.RNG) []string {
 				in = append(in, fmt.Sprintf("v%d:%s", id, hx.HexS(regs[r.Intn(3)])))
 			}
 		case x < 7:
-			in = append(in, "a", fmt.Sprintf("v%d:%s", next, hx.HexS(regs[r.Intn(3)])))
+			acc := []string{"a", "a", "A", "E"}[r.Intn(4)]
+			in = append(in, acc, fmt.Sprintf("v%d:%s", next, hx.HexS(regs[r.Intn(3)])))
+			if r.Chance(1, 3) {
+				in = append(in, fmt.Sprintf("w%d", next))
+			}
 			open = append(open, next)
 			next++
 		default:
@@ -337,6 +341,18 @@ func genKeepAlive(r *hx.RNG) []string {
 		for k := 0; k < nt; k++ {
 			in = append(in, fmt.Sprintf("t:%d:%d", 1+r.Intn(2*span), r.Intn(1000000)))
 		}
+	}
+	// how the client leaves: close, TCP reset after the last exchange, or reset in the middle of a response
+	switch x := r.Intn(10); {
+	case x < 3:
+		in = append(in, "end:rst")
+	case x < 5 && mode != "connect":
+		url := fmt.Sprintf("%s://example/a%d", scheme, r.Intn(100))
+		if r.Chance(1, 3) {
+			url = fmt.Sprintf("%s://example/zzz%d", scheme, r.Intn(100))
+		}
+		ln := 20000 + r.Intn(200000)
+		in = append(in, fmt.Sprintf("qz:%s:-1:%d:%d:%d", hx.HexS(url), ln, r.Intn(1000000), 1+r.Intn(3000)))
 	}
 	return in
 }
